@@ -81,6 +81,30 @@ Example C08_run_safe_example : forall skipped k,
    test_skipped_run skipped (B "^TestAl|^TestZeta$|Beta$") (snapshot_occ_fmt (B "TestGamma") k) = true).
 Proof. intros skipped k. split; [exact ex_pattern_safe|]. split; [exact (ex_sound_applies k)|exact (ex_unselected_protected skipped k)]. Qed.
 
+(* THE -run CLAUSE FOR FILES. With a pattern, go-snaps protects an unregistered file iff its sibling test file parses and none
+   of its function names matches the whole pattern. For EVERY pattern of the class (multi-level alternatives included): a
+   default-named file none of whose test functions Go selects is protected. For single-level patterns the file-level check is
+   exactly "Go selects none of the file's functions". A file WITHOUT a parsable sibling - a standalone or custom-named file -
+   is never protected by -run: known finding K6, stated here as a theorem about the model. *)
+Theorem C08_run_unselected_file_protected : forall p names,
+  p <> nil -> Forall (fun n => ~ In slash n) names ->
+  (forall n, In n names -> go_selects p n = false) ->
+  file_skipped_run p (Some names) = true.
+Proof. exact unselected_file_protected. Qed.
+Print Assumptions C08_run_unselected_file_protected.
+Theorem C08_run_single_level_file_equiv : forall p names,
+  single_level p = true -> p <> nil -> Forall (fun n => ~ In slash n) names ->
+  file_skipped_run p (Some names) = negb (existsb (go_selects p) names).
+Proof. exact single_level_file_equiv. Qed.
+Print Assumptions C08_run_single_level_file_equiv.
+Theorem C08_run_file_without_sibling_unprotected : forall p, file_skipped_run p None = false.
+Proof. exact file_without_sibling_unprotected. Qed.
+Print Assumptions C08_run_file_without_sibling_unprotected.
+Example C08_run_file_example :
+  file_skipped_run (B "^TestAl|Beta$") (Some [B "TestGamma"; B "TestDelta"]) = true /\
+  file_skipped_run (B "^TestAl|Beta$") (Some [B "TestGamma"; B "TestBeta"]) = false.
+Proof. split; [exact ex_file_protected|exact ex_file_selected]. Qed.
+
 (* for a WHOLE Clean run: the entries of a test that called a snaps.Skip* wrapper, and of its descendants, survive in every mode
    and are not reported - whatever the registry says *)
 Theorem C08_run_skip_protected_entry_kept : forall s sort_opt count p es,
